@@ -30,6 +30,12 @@ def line : LineTable → Bool
   | .area vs => someTrue2 vs
   | .other => false
 
+/-- a query polyline without vertices meets no point (its table entry cannot even be evaluated) -/
+def lineQuery (nq : Nat) (t : LineTable) : Bool :=
+  match nq, t with
+  | 0, .point _ => false
+  | _, t => line t
+
 def mp : MpTable → Bool
   | .point cs => someTrue cs
   | .path vs => someTrue2 vs
@@ -51,6 +57,10 @@ def geo : GeoQuery → Bool
   | .mp t => mp t
   | .empty => false
 
-def feature (sameID : Bool) (q : GeoQuery) : Bool := sameID || geo q
+/-- the named feature itself, or a feature meeting its geometry — provided the named feature has geometry -/
+def feature (sameID : Bool) (q : GeoQuery) : Bool :=
+  match q with
+  | .empty => false
+  | q => sameID || geo q
 
 end B6.Spec.SpatialPred
